@@ -204,7 +204,7 @@ PROPS = {
     'C08': dict(
         props_file='Props/C08.v',
         components=['c08'],
-        comp_names={8: 'leader sequences', 1011: 'barrier behind a slow FSM', 1001: 'cluster churn histories'},
+        comp_names={102: 'commitment scripts on a real cluster vs the composed cluster model with commitment (Model/ClusterCommit.v): Apply futures observed', 8: 'leader sequences', 1011: 'barrier behind a slow FSM', 1001: 'cluster churn histories'},
         rule='leader sequences: a real server booted from an image, put in Leader state (setState + setupLeaderState, no replication goroutines) and driven from one goroutine through dispatchLogs (commands, barriers, no-ops, batches of 1-3, a failing StoreLogs), commitment.match reports of voters and non-voters, the commit processing of leaderLoop with the real FSM goroutine (plain and batching FSM), appendConfigurationEntry + the gate, restoreUserSnapshot (index below/at/above the log, wrong size), verifyLeader; after every op: resolved futures (index, error, response), ordered store/FSM trace and the full node + commitment state are diffed against the model (1500 random sequences in quick, 30000 in thorough); ' + 'cluster histories: Barrier behind a slow FSM (0.2-1.7 ms per Apply, buffered and unbuffered applyCh), churn with concurrent clients; monitors: response = FSM answer for the own payload, acknowledged index above all earlier acks, at most once per FSM and at the acknowledged index, definitely-failed commands never stored, Barrier returns after every earlier command reached the local FSM',
         assumptions=['payload ids unique per Apply call', 'ErrEnqueueTimeout rests on Go select semantics'],
         timeout={'quick': 900, 'thorough': 7200},
